@@ -4,5 +4,6 @@ CONSTANTS
   PotentialPassesImag = TRUE
   EmitJson = TRUE
 INVARIANT RoutePreservesKernel
+INVARIANT RouteForwardsArguments
 INVARIANT Emit
 CHECK_DEADLOCK FALSE
